@@ -7,6 +7,7 @@ EXTREMES = "seq"   # worker re-labels every sixth case to the ends of the legal 
 RESTATE = "seq"    # worker adds a signature restating the one in force to every fifth case (gen.restate_signatures)
 SHUFFLE = "seq"    # worker: every seventh case is built by add_absolute_message in shuffled order
 CANONICAL_ABS = True   # the function under test pairs / merges over the canonically sorted list (oracle.abs_order)
+DEGEN = "seq"    # worker: every 37th case becomes a degenerate shape (gen.degenerate)
 SCALE = True   # worker: every fortieth case is blown up by scale_case below
 PROP = "C06"
 MONITORS = ["qnl"]
@@ -86,6 +87,10 @@ def make_case(rng, i, tier):
     prefix = []
     if i % 4 == 3:
         prefix = same_then_edit(rng, {"op": "qnl", "values": nv, "dne": dne}) if rng.random() < 0.4 else random_prefix(rng, n=(1, 3))
+    if i % 7 == 5 and nv:
+        # "any list of allowed values": a list may name a value twice (in any position)
+        nv = [list(nv) + [nv[0]], [nv[-1]] + list(nv), list(nv) + list(nv), [nv[0]] + list(nv) + [max(nv)]][(i // 7) % 4]
+        prefix = [dict(op, values=nv) if op.get("op") == "qnl" and "values" in op else op for op in prefix]
     return {"seq": spec, "values": nv, "dne": dne, "style": style, "prefix": prefix}
 
 
@@ -94,6 +99,9 @@ def run(case, ctx):
     s = apply_prefix(s, case.get("prefix", []))
     before = obs(s)
     twin = s.copy()
+    if case["values"] is not None and len(set(case["values"])) < len(case["values"]):
+        from vmon.monitors import LOG as _L
+        _L.n("c06.value_list_with_repeated_entries")
     if case["values"] is None:
         s.quantise_note_lengths(do_not_extend=case["dne"])
     else:
